@@ -85,8 +85,13 @@ def work(tasks, idx):
     for kind, kidx, declared, used, via in tasks:
         priv = keys.get(kind, kidx)
         cred = core.SimCredential(priv=priv, alg=used if isinstance(used, int) else declared, cred_id=b"matrix-cred-id")
-        if via == "auth":
+        if via in ("auth", "auth-large"):
             ad = core.auth_data(core.sha256(b"example.com"), core.UP, 7)
+            if via == "auth-large":
+                # the same matrix over a large signature base (authenticator data with ~70 KiB of extension data): the scheme
+                # does not depend on how much is signed
+                import cbor2 as _c
+                ad = core.auth_data(core.sha256(b"example.com"), core.UP | core.ED, 7, ext=_c.dumps({"largeBlob": bytes(70 * 1024)}))
             cdj = core.client_data("webauthn.get", b"\x01" * 32, "https://example.com")
             sig = sign_as(priv, used, ad + core.sha256(cdj))
             if sig is None:
@@ -180,6 +185,19 @@ def work(tasks, idx):
                     res.violations.append({"why": f"assertion signed by Q accepted against the stored key -Q ({kind})",
                                            "case": cases.auth_case(a, dict(e, public_key=neg)),
                                            "match": {"op": "verify_auth", "kind": kind + "-negated"}})
+        if core.key_kind(priv) == "ec":
+            # a coordinate that is one byte too long, the extra leading byte not zero: not this key (not a point at all)
+            for alg in core.algs_for(priv)[:1]:
+                for member in (-2, -3):
+                    m = core.cose_key_map(priv.public_key(), alg)
+                    m[member] = b"\x01" + m[member]
+                    odd = cbor2.dumps(m)
+                    code = cases.code_cose_to_pubkey(odd)
+                    res.evaluations += 1
+                    tie.check({"op": "cose_to_pubkey", "b": odd.hex()}, code, label=["decode-overlong", kind], direction="eq")
+                    if code["k"] == "accept":
+                        res.violations.append({"why": f"COSE {kind} key with an over-long coordinate (leading 0x01) decoded to a key: {str(code)[:160]}",
+                                               "b": odd.hex(), "match": {"op": "decode_cose", "kind": kind + "-overlong"}})
         if kind.startswith("p256"):
             n = priv.public_key().public_numbers()
             raw = b"\x04" + n.x.to_bytes(32, "big") + n.y.to_bytes(32, "big")
@@ -205,6 +223,9 @@ def run(ctx, res):
             if declared in core.ALL_ALGS:
                 for used in EXOTIC:
                     tasks.append((kind, kidx, declared, used, "auth"))
+            if kidx == 0 and kind in ("p256", "rsa"):
+                for used in core.ALL_ALGS:
+                    tasks.append((kind, kidx, declared, used, "auth-large"))
     work.driver_ok = ctx.driver_ok
     corr.merge(res, corr.parallel(work, tasks))
     res.exhaustive = True
